@@ -5,5 +5,9 @@ pub mod common;
 pub mod vt;
 #[macro_use]
 pub mod catalogue;
+#[macro_use]
+pub mod dtypes;
 #[cfg(kani)]
 mod c02;
+#[cfg(kani)]
+mod c01;
